@@ -56,6 +56,23 @@ def parse_bad(out, tag):
     return n, [(int(a), int(b), c, d) for a, b, c, d in bad]
 
 
+def parse_bad_in_error_state(out):
+    """findings in the last state TLC printed with an evaluation error: `/\\ bad = {...}` and `/\\ l = n`.
+    None unless there is at least one readable finding (an empty set stays inconclusive)."""
+    i = out.rfind("/\\ bad = ")
+    if i < 0 or "Error: The error occurred when TLC was evaluating" not in out:
+        return None
+    j = out.find("\n/\\ ", i + 5)
+    k = out.find("\n\n", i)
+    end = min(x for x in (j, k, len(out)) if x > 0)
+    txt = " ".join(out[i:end].split())
+    bad = re.findall(r"<< ?(\d+), (\d+), \"(\w+)\", \{([^}]*)\} ?>>", txt)
+    if not bad:
+        return None
+    m = re.findall(r"/\\ l = (\d+)", out)
+    return (int(m[-1]) if m else 0), [(int(a), int(b), c, d) for a, b, c, d in bad]
+
+
 def tv_run(prop, tier, replay_path, *, harness_dirs, pkg, test, trace_module, tag, batches,
            env_of, cfg_extra="", mc=(), level="model_checking", what, sig_of=None,
            assumptions=(), build_name=None, stats_tag=None, samples_keep=6, race=False, owns=None, merge_into_existing=False, sig_ctx=None, max_workers=14,
@@ -112,6 +129,15 @@ def tv_run(prop, tier, replay_path, *, harness_dirs, pkg, test, trace_module, ta
             res = run_tlc(scr, trace_module, cfg, workers=1, timeout=3000, deadlock=False,
                           spec_files=[out], tag="b%d" % k, jvm=["-Xmx3g"])
             pr = parse_bad(res.out, tag)
+            if pr is None and res.error and res.error != "timeout":
+                # TLC could not evaluate the specification on a later event (the driver derives its operations
+                # from the answers of the real object; after a wrong answer they may leave the domain of the
+                # specification's operators). The findings recorded before that are in the error state TLC prints.
+                pr = parse_bad_in_error_state(res.out)
+                if pr is not None:
+                    log("  TLC stopped at event %d of batch %d on an operation outside the specification's domain; "
+                        "%d finding(s) recorded before it are judged" % (pr[0], k, len(pr[1])))
+                    res.error = None
             if pr is None or res.error or res.violated:
                 raise Inconclusive("TLC failed on batch %d: %s\n%s" % (k, res.error or res.violated, res.out[-3000:]))
             if drift_tag:
